@@ -80,7 +80,15 @@ func callIdents(f *ast.File) []*ast.Ident {
 	var ids []*ast.Ident
 	ast.Inspect(f, func(n ast.Node) bool {
 		if c, ok := n.(*ast.CallExpr); ok {
-			if id, ok := c.Fun.(*ast.Ident); ok {
+			fun := c.Fun
+			for { // (f)(x): the callee with redundant parentheses is still that identifier
+				p, ok := fun.(*ast.ParenExpr)
+				if !ok {
+					break
+				}
+				fun = p.X
+			}
+			if id, ok := fun.(*ast.Ident); ok {
 				ids = append(ids, id)
 			}
 		}
@@ -229,6 +237,7 @@ type caseT struct {
 	Length  string   `json:"length"`  // shorter | equal | longer | mixed | ""
 	Gofmt   bool     `json:"gofmt"`   // the user files are gofmt-formatted
 	Files   []string `json:"files"`
+	Pkg     string   `json:"pkg"` // package directory inside the case directory ("" = the case directory itself)
 }
 
 var cases []caseT
@@ -243,7 +252,7 @@ func add(c caseT, files map[string]string, modes map[string]os.FileMode) {
 	for _, n := range names {
 		p := filepath.Join(*out, c.Dir, n)
 		must(os.MkdirAll(filepath.Dir(p), 0o755))
-		must(os.WriteFile(p, []byte(strings.ReplaceAll(files[n], "PKG", c.Dir)), 0o644))
+		must(os.WriteFile(p, []byte(strings.ReplaceAll(strings.ReplaceAll(files[n], "CASE", c.Dir), "PKG", c.Dir)), 0o644))
 	}
 	for n, m := range modes {
 		must(os.Chmod(filepath.Join(*out, c.Dir, n), m))
@@ -570,6 +579,99 @@ func genCorpus() {
 			}
 			modes := bystanders(files)
 			add(caseT{Kind: "rename", What: sr.what + ", " + lay, Renames: sr.flags, Length: sr.length, Gofmt: gofmt}, files, modes)
+		}
+	}
+
+	// --- //line directives (goyacc style): the file name goderive works with must be the real one. The package
+	// lives in <case>/q, the directive's targets in sibling directories of the same case; ABSROOT is replaced by
+	// the absolute path of the module copy before the run. The whole module tree is snapshotted.
+	{
+		body := types2 + "\n// Eq1 keeps its name.\nfunc Eq1(a, b *S) bool { return deriveEqual(a, b) }\n"
+		clash := "\n// Eq2 holds a duplicate that -dedup renames.\nfunc Eq2(a, b *S) bool {\n\treturn deriveEqualAgain(a, b) // trailing comment\n}\n\n// Eq3 holds a conflict that -autoname renames.\nfunc Eq3(a, b *T) bool { return deriveEqual(a, b) }\n"
+		grammar := "%{\npackage q\n%}\n%%\nstart: ;\n%%\n// grammar source: must stay byte for byte\n"
+		type lv struct{ what, directive string }
+		for _, v := range []lv{
+			{"relative target that exists", "//line ../grammar/query.y:2"},
+			{"relative target that does not exist", "//line ../nowhere/query.y:2"},
+			{"absolute target that exists", "//line ABSROOT/CASE/grammar/query.y:7"},
+			{"absolute target that does not exist", "//line ABSROOT/CASE/elsewhere/none.y:1"},
+			{"target is another .go file of the same package", "//line other.go:1"},
+			{"target is a .go file of a sibling package", "//line ../sib/sib.go:1"},
+			{"block-comment form", "/*line ../grammar/query.y:3:1*/"},
+		} {
+			for _, place := range []string{"before the package clause", "in the middle of the file"} {
+				for _, withClash := range []bool{false, true} {
+					var src string
+					if place == "before the package clause" {
+						src = v.directive + "\npackage q\n" + body
+					} else {
+						src = "// Package q is generated from a grammar.\npackage q\n" + types2 + "\n" + v.directive + "\nfunc Eq1(a, b *S) bool { return deriveEqual(a, b) }\n"
+					}
+					if withClash {
+						src += clash
+					}
+					files := map[string]string{
+						"q/a_gen.go": src, // sorts first in its package
+						"q/other.go":         "package q\n\n// Other must stay as it is.\nfunc Other( ) int { return 1 }\n",
+						"grammar/query.y":    grammar,
+						"sib/sib.go":         "package sib\n\n// Sib must stay as it is.\nfunc Sib() {}\n",
+						"README.txt":         "case root\n",
+					}
+					rn, ln := "", ""
+					if withClash {
+						rn, ln = "both", "mixed"
+					}
+					kind := "success"
+					if withClash {
+						kind = "rename"
+					}
+					add(caseT{Kind: kind, What: fmt.Sprintf("//line directive %s, %s (%s)%s", place, v.what, v.directive, map[bool]string{true: ", with clashing calls", false: ""}[withClash]),
+						Renames: rn, Length: ln, Gofmt: true, Pkg: "q"}, files, nil)
+				}
+			}
+		}
+	}
+
+	// --- constructs that gofmt keeps but an AST round trip can lose, in the SAME file as a renamed call
+	{
+		lossy := "//go:build !neverset\n// +build !neverset\n\n// Package PKG: doc comment after the build constraints.\npackage PKG\n\nimport \"unsafe\"\n" + types2 +
+			"\n// Ω has a non-ASCII name and field.\ntype Ω struct{ ñ int }\n\n// Num is a constraint.\ntype Num interface{ ~int | ~float64 }\n\n" +
+			"// Sum is generic.\nfunc Sum[T Num](xs ...T) T {\n\tvar s T\n\tfor _, x := range xs {\n\t\ts += (x)\n\t}\n\treturn (s)\n}\n\n" +
+			"var raw = `raw \"string\" with \\n and a tab\t inside` + \"`\" + `second part`\n\n" +
+			"func conv(s string, v float64, p unsafe.Pointer, c chan int, f func(int) int, ω Ω) int {\n\tb := ([]byte)(s)\n\tn := (int)(v)\n\tq := (*S)(p)\n\tr := (<-chan int)(c)\n\tg := (func(int) int)(f)\n\tm := (f)(n) + (g)((n + 1)) + (Sum[int])(1, 2)\n" +
+			"outer:\n\tfor i := 0; i < (n + 2); i++ {\n\t\tfor range b {\n\t\t\tcontinue outer\n\t\t}\n\t}\n\t_, _ = q, r\n\tünï := (len(b) + m) + (ω.ñ)\n\treturn (ünï) + len(raw)\n}\n\n" +
+			"// Eq1 keeps its name; the parenthesised callee is legal Go.\nfunc Eq1(a, b *S) bool { return deriveEqual(a, b) && (deriveEqual)(b, a) }\n"
+		dup := "\n// Eq2 holds the duplicate.\nfunc Eq2(a, b *S) bool {\n\treturn deriveEqualAgain(a, b) && (len)(a.B) == (len(b.B)) // trailing\n}\n"
+		conf := "\n// Eq3 holds the conflict.\nfunc Eq3(a, b *T) bool {\n\treturn deriveEqual(a, b) && (int)(a.X) == (int)(b.X)\n}\n"
+		for _, v := range []struct{ what, src, flags, length string }{
+			{"parenthesised callees / conversions, labels, build tags, raw strings, non-ASCII identifiers, generics + duplicate", lossy + dup, "dedup", "shorter"},
+			{"parenthesised callees / conversions, labels, build tags, raw strings, non-ASCII identifiers, generics + conflict", lossy + conf, "autoname", "longer"},
+			{"the same, duplicate and conflict", lossy + dup + conf, "both", "mixed"},
+		} {
+			files := map[string]string{"u.go": v.src}
+			modes := bystanders(files)
+			add(caseT{Kind: "rename", What: v.what, Renames: v.flags, Length: v.length, Gofmt: true}, files, modes)
+			files = map[string]string{"u.go": uglify(r, v.src)}
+			modes = bystanders(files)
+			add(caseT{Kind: "rename", What: v.what + ", unformatted", Renames: v.flags, Length: v.length, Gofmt: false}, files, modes)
+		}
+	}
+
+	// --- a directory that also holds an external test package
+	{
+		xNo := "package PKG_test\n\nimport \"testing\"\n\nfunc TestX(t *testing.T) {}\n"
+		xCalls := "package PKG_test\n\nimport \"testing\"\n\nfunc TestX(t *testing.T) {\n\tif !deriveEqual([]int{1}, []int{1}) {\n\t\tt.Fatal()\n\t}\n}\n"
+		in := "package PKG\n\nimport \"testing\"\n\nfunc TestIn(t *testing.T) {\n\tif deriveCompare([]string{\"a\"}, []string{\"b\"}) >= 0 {\n\t\tt.Fatal()\n\t}\n}\n"
+		for _, v := range []struct {
+			what  string
+			files map[string]string
+		}{
+			{"external test package without derive calls", map[string]string{"u.go": good, "x_test.go": xNo}},
+			{"external test package with derive calls", map[string]string{"u.go": good, "x_test.go": xCalls}},
+			{"external and in-package test files", map[string]string{"u.go": good, "in_test.go": in, "x_test.go": xNo}},
+		} {
+			modes := bystanders(v.files)
+			add(caseT{Kind: "success", What: v.what, Gofmt: true}, v.files, modes)
 		}
 	}
 
